@@ -250,6 +250,61 @@ impl C17 {
     }
 }
 
+impl C17 {
+    /// "fails if either leg would fail on its own", over inputs a Byzantine trader can craft: one pool-side token
+    /// account of the two-hop is replaced by a token account of the trader (right mint). The single swap of that leg
+    /// with the same replacement fails; the two-hop must fail as well.
+    fn leg_fails_alone(&self, v_ix: &rt::Ix, pre: &Ledger, salt: u64, idx: usize, cov: &mut Coverage, out: &mut Vec<Violation>) {
+        let Some(c) = wpix::decode(v_ix) else { return };
+        let a = wpix::two_hop_args(&c);
+        let Some(lg) = legs(&c, pre) else { return };
+        let slots: [(&str, u8, bool); 4] = if lg.v2 {
+            [
+                ("token_vault_one_input", 1, a.a_to_b_one),
+                ("token_vault_one_intermediate", 1, !a.a_to_b_one),
+                ("token_vault_two_intermediate", 2, a.a_to_b_two),
+                ("token_vault_two_output", 2, !a.a_to_b_two),
+            ]
+        } else {
+            [("token_vault_one_a", 1, true), ("token_vault_one_b", 1, false), ("token_vault_two_a", 2, true), ("token_vault_two_b", 2, false)]
+        };
+        for (n, (slot, leg, is_a)) in slots.iter().enumerate() {
+            let Some(si) = c.idx(slot) else { continue };
+            let pool = if *leg == 1 { &lg.s1 } else { &lg.s2 };
+            let mint = if *is_a { pool.mint_a } else { pool.mint_b };
+            if !is_plain(pre, &mint) {
+                continue;
+            }
+            let mut f = pre.clone();
+            let fake = crate::world::scratch_key(salt, 7100 + n as u64);
+            crate::world::put_token_account(&mut f, &fake, &mint, &lg.auth, 1 << 40);
+            // the leg alone, with the same replacement
+            let mut sa = if *leg == 1 { lg.sa1.clone() } else { lg.sa2.clone() };
+            if *is_a {
+                sa.pool.vault_a = fake;
+            } else {
+                sa.pool.vault_b = fake;
+            }
+            let (dir, lim) = if *leg == 1 { (a.a_to_b_one, a.limit_one) } else { (a.a_to_b_two, a.limit_two) };
+            let args = SwapArgs { amount: a.amount.max(1), other_amount_threshold: if a.is_input { 0 } else { u64::MAX }, sqrt_price_limit: lim, amount_specified_is_input: a.is_input, a_to_b: dir };
+            let lone = run(&mut f.clone(), if lg.v2 { ix::swap_v2(&sa, &args, &[]) } else { ix::swap(&sa, &args) });
+            if lone.ok {
+                cov.note("c17_single_swap_accepts_replaced_vault");
+                continue;
+            }
+            let mut ix2 = v_ix.clone();
+            ix2.accounts[si].pubkey = fake;
+            let r = run(&mut f, ix2);
+            cov.probe("leg_fails_alone_variants");
+            cov.eval(format!("{}|replaced:{}|two_hop_ok={}", c.name(), slot, r.ok));
+            if r.ok {
+                out.push(viol("accepted_although_a_leg_fails_alone", idx, format!("{} succeeds with the trader's own token account in the `{}` slot although the single swap of leg {} with the same replacement fails (code {:?})", c.name(), slot, leg, lone.custom())));
+                return;
+            }
+        }
+    }
+}
+
 impl Monitor for C17 {
     fn name(&self) -> &'static str {
         "C17"
@@ -269,6 +324,9 @@ impl Monitor for C17 {
         }
         let code = ev.out.ix_outcomes.last().and_then(|o| o.custom());
         self.check(ixn, ev.pre, ev.out.ok, if ev.out.ok { Some(ev.post) } else { None }, code, ev.idx, cov, &mut out);
+        if ev.out.ok && out.is_empty() && ev.salt % 2 == 0 {
+            self.leg_fails_alone(ixn, ev.pre, ev.salt, ev.idx, cov, &mut out);
+        }
         let _: Option<IxView> = None;
         out
     }
